@@ -441,18 +441,16 @@ def runBuiltin (p : Prog) (w : World) (f : String) (args : List Val) (k : List F
     match s with | _ => stuck "internal: ForSlice is handled syntactically"
   | "Fst", [.pair a _] => ret a w
   | "Snd", [.pair _ b] => ret b w
-  | "StringLength", [.str s] => ret (.u64 s.utf8ByteSize) w
+  | "StringLength", [.str s] => ret (.u64 s.length) w
   | "StringToBytes", [.str s] =>
-    let bs := s.toUTF8.toList.map (fun b => Val.u8 b.toNat)
+    let bs := s.toList.map (fun c => Val.u8 (c.toNat % 256))
     if bs.isEmpty then ret .sliceNil w else
     let (w', o) := w.alloc (.arr bs); ret (.slice o 0 bs.length bs.length) w'
   | "StringFromBytes", [s] =>
     match sliceElems w s with
     | some vs =>
       match vs.mapM natOf with
-      | some ns => match String.fromUTF8? (ByteArray.mk (ns.map UInt8.ofNat).toArray) with
-        | some str => ret (.str str) w
-        | none => ret (.str (String.ofList (ns.map Char.ofNat))) w
+      | some ns => ret (.str (String.ofList (ns.map (fun n => Char.ofNat (n % 256))))) w
       | none => stuck "not bytes"
     | none => stuck "not a slice"
   | "uint64_to_string", [.u64 n] => ret (.str (decString n)) w
@@ -782,7 +780,7 @@ def runCall (p : Prog) (fuel : Nat) (fn : String) (args : List Val) : Outcome :=
 
 def hexOfString (s : String) : String :=
   let hexd (n : Nat) : Char := if n < 10 then Char.ofNat (48 + n) else Char.ofNat (87 + n)
-  String.ofList (s.toUTF8.toList.flatMap (fun b => [hexd (b.toNat / 16), hexd (b.toNat % 16)]))
+  String.ofList (s.toList.flatMap (fun c => [hexd (c.toNat % 256 / 16), hexd (c.toNat % 16)]))
 
 partial def showVal (w : World) (depth : Nat) : Val → String
   | .u64 n => s!"u64:{n}"
@@ -794,7 +792,7 @@ partial def showVal (w : World) (depth : Nat) : Val → String
   | .null => "null"
   | .sliceNil => "[]"
   | .pair a b => "(" ++ ",".intercalate (flattenPair (.pair a b) |>.map (showVal w depth)) ++ ")"
-  | .structV fs => "{" ++ ",".intercalate (fs.map (fun f => f.1 ++ "=" ++ showVal w depth f.2)) ++ "}"
+  | .structV fs => "{" ++ ",".intercalate (fs.map (fun f => textView f.1 ++ "=" ++ showVal w depth f.2)) ++ "}"
   | .clo _ _ _ _ => "<func>"
   | .sym h _ => "<" ++ h ++ ">"
   | .slice o f l c =>
